@@ -10,13 +10,13 @@ from lib.tlc import RawTla
 
 BASE = {"type": "opm", "kind": "orbit", "scale": "UTC", "frame": "EME2000", "cov": "none", "nman": 0, "mankind": "impulsive",
         "manframe": "none", "comment": False, "nud": 0, "npoints": 1, "ncov": "all", "nephem": 1, "interp": "lagrange8",
-        "tdmpath": "one-way", "tdmdoppler": False, "manpos": "start", "form": "cartesian"}
+        "tdmpath": "one-way", "tdmdoppler": False, "manpos": "start", "form": "cartesian", "grown": "no"}
 DIMS = {"type": ["opm", "oem", "omm", "tdm"], "kind": ["orbit", "statevector"], "scale": ["UTC", "TAI", "TT", "GPS", "UT1", "TDB"],
         "frame": ["EME2000", "ITRF", "TOD", "GCRF", "MOD", "TEME", "CIRF", "PEF", "TIRF", "G50"],
         "cov": ["none", "same", "QSW", "TNW", "other", "mixed"], "nman": [0, 1, 2, 3], "mankind": ["impulsive", "continuous", "mixed"],
         "manframe": ["none", "QSW", "TNW"], "comment": [False, True], "nud": [0, 1, 2], "npoints": [1, 2, 3, 9],
         "ncov": ["all", "one"], "nephem": [1, 2], "interp": ["linear", "lagrange2", "lagrange5", "lagrange8"],
-        "tdmpath": ["one-way", "two-way"], "tdmdoppler": [False, True], "manpos": ["start", "median", "stop"], "form": ["cartesian", "keplerian", "spherical"]}
+        "tdmpath": ["one-way", "two-way"], "tdmdoppler": [False, True], "manpos": ["start", "median", "stop"], "form": ["cartesian", "keplerian", "spherical"], "grown": ["no", "extend", "iadd", "insert"]}
 
 
 def tl(v):
@@ -30,7 +30,7 @@ def tl(v):
 def run(ctx):
     thorough = ctx.tier == "thorough"
     rnd = random.Random(ctx.seed)
-    ctx.rule = ("TLC enumerates every pair of deviations from a base configuration over 18 dimensions (type, StateVector/Orbit, time scale, "
+    ctx.rule = ("TLC enumerates every pair of deviations from a base configuration over 19 dimensions (type, StateVector/Orbit, time scale, "
                 "frame, covariance and its frame, number/kind/frame/comment of maneuvers, user-defined fields, ephemeris points, covariances, "
                 "number of ephemerides, interpolation, TDM path and measurement mix) x 8 encoding paths (first encoding, its source, second "
                 "encoding); distinct/non-trivial = distinct (type, encodings, covariance, maneuvers, scale, frame) classes replayed")
